@@ -217,13 +217,16 @@ CLAIMED = {
         text="Lean theorems over H5.Model.Encoding (detectBOM, override/transport/meta/parent/likely/default chain, changeEncoding, "
              "the prescan EncodingBytes/EncodingParser/ContentAttrParser statement by statement): C06_precedence (the chain equals the "
              "documented order for all inputs and arguments) with its clause corollaries, C06_bom_spec (detectBOM = the Encoding "
-             "Standard's BOM sniff for every byte string, since fixes 7aa7032/907ffcc), C06_certain (a certain encoding is never "
-             "changed by content), C06_late_meta_partial (late <meta>: restart/keep decision = the standard's, two excluded cases are "
-             "recorded findings with kernel witnesses), C06_prescan_terminates (fuel len+2 suffices for every byte string), ten "
-             "C06_witness_* theorems pinning the ten recorded prescan deviations. The prescan itself is compared with an independent "
-             "WHATWG reference (Spec.Sniff, parametrised by those deviations) by the harness, not by a theorem; codecs and the "
-             "webencodings label table are trusted/extracted.",
-        note="proof for precedence, BOM, certainty, termination; prescan-vs-WHATWG is differential (deviations recorded as findings).",
+             "Standard's BOM sniff for every byte string), C06_certain (a certain encoding is never changed by content), "
+             "C06_late_meta (late <meta>: restart/keep decision = the standard's, no hypothesis left since fixes b455301/accb044), "
+             "C06_prescan_terminates (fuel len+2 suffices for every byte string), C06_getAttribute_spec and "
+             "C06_readAllAttributes_spec (the prescan's attribute scanning equals the standard's 'get an attribute' for every byte "
+             "string and position); regression examples for the ten prescan deviations repaired in /repo (one fix: commit each). "
+             "The WHOLE prescan is compared with an independent WHATWG reference (Spec.Sniff) by the harness — equal on every "
+             "generated input since the repairs — not by a theorem (meta loop, content parser, comment/tag skipping are "
+             "harness-level); codecs and the webencodings label table are trusted/extracted; four decode:* findings (StreamReader "
+             "layer) remain recorded.",
+        note="proof for precedence, BOM, certainty, late meta, termination, attribute scanning; whole-prescan = WHATWG is differential.",
         technique="Lean 4 theorems over the encoding-determination model + correspondence (ops enc:*) + differential against a WHATWG prescan reference",
         design="6/C06"),
     "C12": dict(
